@@ -79,10 +79,6 @@ type Case struct {
 	Buf     int `json:"buf"`               // size of the read buffer
 	Direct  int `json:"direct"`            // chain element also run through MakeFilter(..).Decode; -1: none
 
-	// Light disables the resource oracles and the direct path (used by the
-	// native fuzz target while minimising; never set by the generator).
-	Light bool `json:"light,omitempty"`
-
 	obs observation
 }
 
@@ -441,18 +437,14 @@ func runDirect(c *Case, name pdf.Name, pd pdf.Dict, raw []byte, limit int64) (ru
 func measured(c *Case, what string, f func() (runResult, error)) (res runResult, alloc uint64, elapsed time.Duration, err error) {
 	var m0, m1 runtime.MemStats
 	base := wd.begin(c, what)
-	if !c.Light {
-		runtime.ReadMemStats(&m0)
-	}
+	runtime.ReadMemStats(&m0)
 	err = vt.Guard(func() error {
 		var e error
 		res, e = f()
 		return e
 	})
-	if !c.Light {
-		runtime.ReadMemStats(&m1)
-		alloc = m1.TotalAlloc - m0.TotalAlloc
-	}
+	runtime.ReadMemStats(&m1)
+	alloc = m1.TotalAlloc - m0.TotalAlloc
 	elapsed = wd.end()
 	if err != nil {
 		return
@@ -532,29 +524,27 @@ func checkCase(c *Case) error {
 		return fmt.Errorf("chain ending in %s produced more than limits.MaxImageBytes = %d bytes from %d bytes of input",
 			ob.names[len(ob.names)-1], int64(limits.MaxImageBytes), len(raw))
 	}
-	if !c.Light {
-		var objBudget, objIn int64
-		for i := range c.Objs {
-			if c.Objs[i].Stream {
-				objBudget += limits.StreamBudget(int64(len(c.Objs[i].Body)))
-				objIn += int64(len(c.Objs[i].Body))
-			}
+	// oracle 6 for the chain: every stream involved has its own budget; a
+	// globals stream may be decoded once per chain element
+	var objBudget, objIn int64
+	for i := range c.Objs {
+		if c.Objs[i].Stream {
+			objBudget += limits.StreamBudget(int64(len(c.Objs[i].Body)))
+			objIn += int64(len(c.Objs[i].Body))
 		}
-		in := int64(len(raw)) + objIn
-		// a globals stream may be decoded once per chain element
-		budgets := limits.StreamBudget(int64(len(raw))) + maxChain*objBudget
-		trip := 2*budgets + 4*(in+res.out) + 64<<20
-		if int64(alloc) > trip {
-			bound := 2*budgets + 4*in + 64<<20
-			if err := confirmPeak(c, "DecodeStream", bound, int64(alloc), func() (runResult, error) { return runChain(c, raw, limit) }); err != nil {
-				return err
-			}
+	}
+	in := int64(len(raw)) + objIn
+	budgets := limits.StreamBudget(int64(len(raw))) + maxChain*objBudget
+	if int64(alloc) > 2*budgets+4*(in+res.out)+64<<20 {
+		bound := 2*budgets + 4*in + 64<<20
+		if err := confirmPeak(c, "DecodeStream", bound, int64(alloc), func() (runResult, error) { return runChain(c, raw, limit) }); err != nil {
+			return err
 		}
 	}
 
 	// ---- the same body through MakeFilter(name, dict).Decode ----------
 	name, pd, ok := c.directElem()
-	if !ok || c.Light {
+	if !ok {
 		return nil
 	}
 	ob.direct = true
